@@ -14,6 +14,7 @@ from outside, as after a rejected trial); the forced refresh is also run under
 FixAtoms / FixCom / FixedPlane.
 Reversibility runs include rigid bonds; half of the live simulations also carry a single-particle displacement move,
 and every momentum refresh is checked component by component (a component that keeps its value was not drawn).
+Every fifth energy-order case carries an energy-contributing ASE constraint (Hookean tether, ExternalForce).
 """
 from __future__ import annotations
 
@@ -38,7 +39,7 @@ ASSUMPTIONS = [
     "forced refresh: |2KE/(dof kT) - 1| <= 1e-9 for T >= 1 K (the implementation adds 1e-15 eV to the temperature before scaling)",
     "normality: |z|>5 on mean/variance or KS p<1e-6 flags; re-measured once with 4x the draws",
 ]
-REQUIRED = {"refresh_components_watched": 3000, "reversibility_runs_with_rigid_bonds": 15, "order_runs_with_reassigned_time_step": 20, "forced_refresh_with_constraints": 30, "reversibility_runs": 150, "reversibility_runs_with_used_integrator": 50, "order_runs_with_used_integrator": 20, "order_triples": 30, "refresh_batches": 4, "forced_refresh": 100, "hmc_trials": 300, "ke_checked_at_criteria": 300}
+REQUIRED = {"order_runs_with_energy_contributing_constraint": 15, "refresh_components_watched": 3000, "reversibility_runs_with_rigid_bonds": 15, "order_runs_with_reassigned_time_step": 20, "forced_refresh_with_constraints": 30, "reversibility_runs": 150, "reversibility_runs_with_used_integrator": 50, "order_runs_with_used_integrator": 20, "order_triples": 30, "refresh_batches": 4, "forced_refresh": 100, "hmc_trials": 300, "ke_checked_at_criteria": 300}
 SHARD_TIMEOUT = {"quick": 900, "thorough": 3000}
 
 
@@ -185,6 +186,21 @@ def run_order(spec, rec):
         appl = bool(rng.random() < 0.5)
         chunks, base = 12, int(rng.integers(4, 12))
         errs = []
+        # in every fifth case the atoms carry an energy-contributing ASE constraint (a harmonic tether to a point, or a
+        # constant force pulling two atoms apart): its energy is part of the total energy and its force part of the
+        # forces, whether or not the integrator is told to apply constraints to positions and momenta
+        spring = None
+        if i % 5 == 4:
+            from ase.constraints import ExternalForce, Hookean
+
+            if len(atoms0) >= 2 and not appl and rng.random() < 0.4:
+                spring = ExternalForce(0, 1, float(rng.uniform(0.05, 0.4)))
+            else:
+                ks = float(10 ** rng.uniform(-0.5, 1.0))
+                spring = Hookean(a1=int(rng.integers(len(atoms0))), a2=tuple(atoms0.positions[0] + rng.normal(scale=0.5, size=3)), k=ks, rt=0.0)
+                omega = math.sqrt(omega**2 + ks / atoms0.get_masses().min())
+            atoms0.set_constraint(spring)
+            rec.count("order_runs_with_energy_contributing_constraint")
         # history of the integrator object in every other case: already used on these atoms for a proposal that was
         # then undone from outside (positions and momenta put back), as after a rejected Hamiltonian trial
         shared = i % 4 >= 2
@@ -224,7 +240,7 @@ def run_order(spec, rec):
             rec.viol(f"C14/integrate-raised/{type(ex).__name__}", f"Verlet.integrate raised {ex}", {"potential": kind})
             continue
         rec.evaluations += 1
-        wit = {"potential": kind, "natoms": len(atoms0), "omega_dt": wdt, "apply_constraints": appl, "energy_errors_dt_dt2_dt4_dt8": errs, "integrator": "used before, state restored from outside" if shared else "fresh"}
+        wit = {"potential": kind, "natoms": len(atoms0), "omega_dt": wdt, "apply_constraints": appl, "energy_errors_dt_dt2_dt4_dt8": errs, "integrator": "used before, state restored from outside" if shared else "fresh", "constraint": type(spring).__name__ if spring is not None else None}
         if min(errs) < 1e-10:
             rec.count("order_unresolved")
             continue
@@ -233,7 +249,7 @@ def run_order(spec, rec):
         slope = math.log2(errs[1] / errs[3]) / 2
         rec.case("order", kind, len(atoms0), round(wdt, 2), appl, shared)
         if not 1.7 <= slope <= 2.3:
-            rec.viol("C14/energy-error-order" + ("/integrator-used-before" if shared else ""), f"total-energy error scales with dt^{slope:.2f}, expected dt^2", {**wit, "order": slope})
+            rec.viol("C14/energy-error-order" + ("/integrator-used-before" if shared else "") + (f"/{type(spring).__name__}" if spring is not None else ""), f"total-energy error scales with dt^{slope:.2f}, expected dt^2", {**wit, "order": slope})
         rec.sample({**wit, "order": slope}, cap=2)
 
 
